@@ -255,27 +255,31 @@ SKIPPED = "skipped-time-budget"
 
 
 def _run_impl_batch(lines, timeout):
-    """Runs the real code on a batch. If the process dies (abort/stack overflow), continues after
-    the offending line; if it exceeds `timeout`, the rest of the batch is marked skipped."""
+    """Runs the real code on a batch. If the process dies (abort/stack overflow) or does not come back within
+    the per-attempt cap (a line that never terminates), the offending line is recorded (`abort` / `hang`) and
+    the run continues after it; when the overall `timeout` is used up the rest of the batch is marked skipped."""
     res = []
     rest = list(lines)
     t0 = time.time()
+    cap = float(os.environ.get("VERIF_BATCH_TIMEOUT", "300"))
     while rest:
         left = timeout - (time.time() - t0)
         if left <= 0:
             res.extend([SKIPPED] * len(rest))
             break
         try:
-            rc, out, err = run_lines(RUN, rest, timeout=left)
+            rc, out, err = run_lines(RUN, rest, timeout=min(left, max(cap, 0.5 * len(rest))))
         except subprocess.TimeoutExpired as e:
             got = (e.stdout or b"")
             got = got.decode() if isinstance(got, bytes) else got
             outl = got.split("\n")[:-1] if got else []
-            res.extend(outl[:len(rest)])
+            outl = outl[:len(rest)]
+            res.extend(outl)
             n = len(outl)
             if n < len(rest):
                 res.append("hang")          # the line being executed when time ran out
-                res.extend([SKIPPED] * (len(rest) - n - 1))
+                rest = rest[n + 1:]
+                continue
             break
         res.extend(out[:len(rest)])
         if rc == 0 and len(out) >= len(rest):
@@ -637,6 +641,11 @@ def run_check(prop, tier, seed):
             lines = [lines[i] for i in kept]
             raw = [raw[i] for i in kept]
         impl = prop.project_all(lines, raw)
+        # a case on which the harness process died (`abort`: stack overflow, allocation failure, …) or did not
+        # come back within the time budget (`hang`) is never projected away: no model or specification says so
+        for i, r in enumerate(raw):
+            if r in ("hang", "abort"):
+                impl[i] = "process-" + r
         if ok_drv:
             model, spec = run_model(lines, nworkers)
         else:
